@@ -164,14 +164,20 @@ size_t xvu_strlen(const char *s) { return xvu_cstr_len(s); }
 /* strcpy into a 64-byte field (req.get_attr_req.attr_name of xcmc_attr_get, selected with -DXVU_STRCPY64): same OBLIGATION (room for
  * the string and its NUL), then an EXACT copy written byte by byte at CONSTANT offsets -- the destination is a field of a 37 904-byte
  * struct on the stack, and an update at a symbolic offset costs one array update of the whole object. */
+struct xvu_b64 { char b[64]; };
 char *xvu_strcpy64(char *dst, const char *src)
 {
     size_t n = xvu_cstr_len(src);
     __CPROVER_assert(__CPROVER_w_ok(dst, n + 1) && n < 64, "strcpy: destination (64 bytes) has room for the string and its NUL");
     __CPROVER_assume(n < 64);
-#define XVU_C1(k) if ((k) <= n) dst[k] = src[k]
+    __CPROVER_assert(__CPROVER_w_ok(dst, 64), "strcpy64 model: the destination is a 64-byte field");
+    /* read the field once, change bytes 0..n in a small local copy, write the field back once (one update of the big struct
+     * instead of 64 conditional ones, each of which is an if-then-else over the whole 38 KB object) */
+    struct xvu_b64 t = *(struct xvu_b64 *)dst;
+#define XVU_C1(k) if ((k) <= n) t.b[k] = src[k]
 #define XVU_C8(k) XVU_C1(k); XVU_C1((k) + 1); XVU_C1((k) + 2); XVU_C1((k) + 3); XVU_C1((k) + 4); XVU_C1((k) + 5); XVU_C1((k) + 6); XVU_C1((k) + 7)
     XVU_C8(0); XVU_C8(8); XVU_C8(16); XVU_C8(24); XVU_C8(32); XVU_C8(40); XVU_C8(48); XVU_C8(56);
+    *(struct xvu_b64 *)dst = t;
     return dst;
 }
 /* strncmp(a, "ctl-", 4): exact, unrolled (a is a C string: comparison stops at its NUL) */
@@ -512,13 +518,14 @@ int socket(int domain, int type, int protocol)
  * as env/fd.h's models, which are renamed away: those read / havoc the caller's buffer at SYMBOLIC offsets, and the buffers of
  * xcmc.c are 37 904-byte structs on the stack -- one byte at a symbolic offset of such an object costs ~5 M gates (the job did
  * not finish in 15 minutes).  Here:
- *   send: the byte at the arbitrary offset xv_j is recorded (xv_send_c) by a case split over the CONSTANT offsets 0..XVU_TX_HDR-1
- *         (type, padding, the 64-byte name field); for xv_j beyond that xv_send_c is left 0 and xvu_tx_tracked is false
- *         (contracts speak about tracked bytes only).
+ *   send: the byte at the arbitrary offset xv_j is recorded (xv_send_c) for the offsets 0..3 (type, little endian) and
+ *         8..XVU_TX_HDR-1 (the 64-byte name field) through TYPED reads of struct ctl_proto_msg; for other xv_j xv_send_c is left
+ *         0 and xvu_tx_tracked is false (contracts speak about tracked bytes only).
  *   recv: an arbitrary record of arbitrary length `real`; the WHOLE buffer becomes arbitrary when real > 0 (the kernel stores
  *         min(real, len) bytes and leaves the rest alone: making the rest arbitrary as well is an over-approximation); the
  *         protocol fields of a full-size record are copied to xvu_rx from their constant offsets; xvu_rx.val_mc is the value
- *         byte at offset xv_mc (the offset the memcpy model of env/base.h tracks), by case split over 0..511. */
+ *         byte at offset xv_mc (the offset the memcpy model tracks), a typed read.
+ *   memcpy (xcmc.c only, renamed by macro): env/base.h's model with the tracked byte read through the array type. */
 #define XVU_TX_HDR 72
 _Bool xvu_tx_tracked;
 #define XVU_FLD(T, base, off) (*(T *)((uint8_t *)(base) + (off)))
@@ -530,12 +537,16 @@ ssize_t send(int fd, const void *buf, size_t len, int flags)
     if (!xv_fdt.e[fd].nonblock && !(flags & MSG_DONTWAIT)) xv_blocked = 1;
     xv_send_calls++; xv_send_fd = fd; xv_send_buf = buf; xv_send_len = len; xv_send_flags = flags;
     xv_send_c = 0; xvu_tx_tracked = 0;
-    if (len >= XVU_TX_HDR && xv_j >= 0 && xv_j < XVU_TX_HDR) {
-        const uint8_t *b = buf; uint8_t c = 0;
-#define XVU_T1(k) if (xv_j == (k)) c = b[k]
-#define XVU_T8(k) XVU_T1(k); XVU_T1((k) + 1); XVU_T1((k) + 2); XVU_T1((k) + 3); XVU_T1((k) + 4); XVU_T1((k) + 5); XVU_T1((k) + 6); XVU_T1((k) + 7)
-        XVU_T8(0); XVU_T8(8); XVU_T8(16); XVU_T8(24); XVU_T8(32); XVU_T8(40); XVU_T8(48); XVU_T8(56); XVU_T8(64);
-        xv_send_c = c; xvu_tx_tracked = 1;
+    if (len == sizeof(struct ctl_proto_msg) && xv_j >= 0 && xv_j < XVU_TX_HDR) {
+        /* TYPED reads (the buffer of every send of xcmc.c is a struct ctl_proto_msg): index expressions, not byte extraction */
+        const struct ctl_proto_msg *m = buf; uint8_t c = 0;
+        unsigned t = (unsigned)m->type;
+        if (xv_j == 0) c = (uint8_t)(t & 0xff); else if (xv_j == 1) c = (uint8_t)((t >> 8) & 0xff);
+        else if (xv_j == 2) c = (uint8_t)((t >> 16) & 0xff); else if (xv_j == 3) c = (uint8_t)((t >> 24) & 0xff);
+#ifndef XVU_X1
+        else if (xv_j >= 8) c = (uint8_t)m->get_attr_req.attr_name[xv_j - 8];
+#endif
+        xv_send_c = c; xvu_tx_tracked = (xv_j < 4 || xv_j >= 8);     /* bytes 4..7 are padding */
     }
     if (nondet_bool()) {
         xv_errno = xv_any_errno();     /* EAGAIN (send timeout), EPIPE, ECONNRESET, ENOBUFS, EMSGSIZE, EINTR, ... */
@@ -573,22 +584,39 @@ ssize_t recv(int fd, void *buf, size_t len, int flags)
     xv_recv_ret = (xv_fdt.e[fd].seqpacket && (flags & MSG_TRUNC)) ? (long)real : (long)n;
     if (n == sizeof(struct ctl_proto_msg)) {
         xvu_rx.full = 1;
-        xvu_rx.type = XVU_FLD(int, buf, offsetof(struct ctl_proto_msg, type));
-        xvu_rx.rej_errno = XVU_FLD(int, buf, offsetof(struct ctl_proto_msg, get_attr_rej.rej_errno));
-        xvu_rx.value_type = XVU_FLD(int, buf, XVU_OFF_ATTR + offsetof(struct ctl_proto_attr, value_type));
-        xvu_rx.value_len = XVU_FLD(size_t, buf, XVU_OFF_ATTR + offsetof(struct ctl_proto_attr, value_len));
-        xvu_rx.attrs_len = XVU_FLD(size_t, buf, offsetof(struct ctl_proto_msg, get_all_attr_cfm) + offsetof(struct ctl_proto_get_all_attr_cfm, attrs_len));
+        const struct ctl_proto_msg *m = buf;
+        xvu_rx.type = (int)m->type;
+        xvu_rx.rej_errno = m->get_attr_rej.rej_errno;
+        xvu_rx.value_type = (int)m->get_attr_cfm.attr.value_type;
+        xvu_rx.value_len = m->get_attr_cfm.attr.value_len;
+        xvu_rx.attrs_len = m->get_all_attr_cfm.attrs_len;
         xvu_rx.val_mc = 0;
-        if (xv_mc < CTL_ATTR_VALUE_MAX) {
-            const uint8_t *v = (const uint8_t *)buf + XVU_OFF_ATTR + offsetof(struct ctl_proto_attr, any_value); uint8_t c = 0;
-#define XVU_R1(k) if (xv_mc == (size_t)(k)) c = v[k]
-#define XVU_R8(k) XVU_R1(k); XVU_R1((k) + 1); XVU_R1((k) + 2); XVU_R1((k) + 3); XVU_R1((k) + 4); XVU_R1((k) + 5); XVU_R1((k) + 6); XVU_R1((k) + 7)
-#define XVU_R64(k) XVU_R8(k); XVU_R8((k) + 8); XVU_R8((k) + 16); XVU_R8((k) + 24); XVU_R8((k) + 32); XVU_R8((k) + 40); XVU_R8((k) + 48); XVU_R8((k) + 56)
-            XVU_R64(0); XVU_R64(64); XVU_R64(128); XVU_R64(192); XVU_R64(256); XVU_R64(320); XVU_R64(384); XVU_R64(448);
-            xvu_rx.val_mc = c;
-        }
+#ifndef XVU_X2
+        if (xv_mc < CTL_ATTR_VALUE_MAX) xvu_rx.val_mc = ((const struct ctl_proto_msg *)buf)->get_attr_cfm.attr.any_value[xv_mc];   /* typed read */
+#endif
     }
     return (ssize_t)xv_recv_ret;
+}
+/* memcpy(attr_value, &attr->any_value, value_len) of xcmc_attr_get.  TRUSTED(libc): same over-approximation as env/base.h's memcpy (both
+ * regions must be accessible -- obligations --, destination arbitrary except offsets 0..7 and the ghost offset xv_mc), the
+ * byte at xv_mc being read through the source's array type uint8_t[512] when xv_mc < 512. */
+void *xvu_memcpy_val(void *dst, const void *src, size_t n)
+{
+    __CPROVER_assert(n == 0 || __CPROVER_r_ok(src, n), "memcpy source region readable");
+    __CPROVER_assert(n == 0 || __CPROVER_w_ok(dst, n), "memcpy destination region writeable");
+    __CPROVER_assume(n == 0 || (__CPROVER_r_ok(src, n) && __CPROVER_w_ok(dst, n)));
+    const uint8_t (*a)[CTL_ATTR_VALUE_MAX] = src; uint8_t *d_ = dst;
+    uint8_t h0 = (*a)[0], h1 = (*a)[1], h2 = (*a)[2], h3 = (*a)[3], h4 = (*a)[4], h5 = (*a)[5], h6 = (*a)[6], h7 = (*a)[7];
+#ifndef XVU_X3
+    _Bool g = xv_mc < n && xv_mc < CTL_ATTR_VALUE_MAX; uint8_t bg = g ? (*a)[xv_mc] : 0;
+#else
+    _Bool g = 0; uint8_t bg = 0;
+#endif
+    if (n > 0) __CPROVER_havoc_slice(dst, n);
+    if (0 < n) d_[0] = h0; if (1 < n) d_[1] = h1; if (2 < n) d_[2] = h2; if (3 < n) d_[3] = h3;
+    if (4 < n) d_[4] = h4; if (5 < n) d_[5] = h5; if (6 < n) d_[6] = h6; if (7 < n) d_[7] = h7;
+    if (g) d_[xv_mc] = bg;
+    return dst;
 }
 /* session objects: ut_malloc / ut_free of xcmc.c are renamed to these (counting wrappers around env/base.h's) */
 void *xvu_sess_malloc(size_t size) { xvu_sess_heap++; return ut_malloc(size); }
